@@ -90,9 +90,19 @@ fn long_string_value(token: &LuaSyntaxToken) -> Result<String, LuaParseError> {
         }
     }
 
-    let content = &text[i..(text.len() - equal_num - 2)];
-
-    Ok(content.to_string())
+    // an unterminated long string does not end with its closing bracket: the computed
+    // range may then be inverted or split a multi-byte character
+    match text.get(i..(text.len() - equal_num - 2)) {
+        Some(content) => Ok(content.to_string()),
+        None => Err(LuaParseError::new(
+            LuaParseErrorKind::SyntaxError,
+            &t!(
+                "Invalid long string end, expected '%{eq}]'",
+                eq = "=".repeat(equal_num)
+            ),
+            range,
+        )),
+    }
 }
 
 fn normal_string_value(token: &LuaSyntaxToken) -> Result<String, LuaParseError> {
